@@ -165,6 +165,9 @@ impl Wait for YieldingWait {
             #[cfg(multiqueue2_verif)]
             crate::verif_hooks::spin_loop();
             yield_now();
+            if check(seq, w_pos, wc) {
+                return;
+            }
             for _ in 0..self.spins_yield {
                 if check(seq, w_pos, wc) {
                     return;
